@@ -17,7 +17,7 @@ RULE = (
     "(shape, observed pattern, k, batch set); non-trivial = the batch is non-empty or some sample has fewer than k plates"
 )
 ASSUMPTIONS = ["states are memoised on the set of batch plates (quick: <=9 plates; thorough: always) or on per-sample batch counts (larger shapes)"]
-REQUIRED = {"states_checked": {"quick": 3000, "thorough": 20000}, "walk_steps": {"quick": 300, "thorough": 5000}, "multi_sample_refusals": {"quick": 8, "thorough": 50}}
+REQUIRED = {"states_checked": {"quick": 3000, "thorough": 20000}, "walk_steps": {"quick": 300, "thorough": 5000}, "multi_sample_refusals": {"quick": 8, "thorough": 50}, "batches_revealed_in_place": {"quick": 60, "thorough": 800}}
 
 
 def build_screen(Screen, shape, observed_plates=(), multi=None):
@@ -185,7 +185,7 @@ def run_shard(rec, tier, seed, shard, nshards):
             rec.sample({"kind": "dfs", "shape": list(shape), "k": k, "observed": list(observed), "states": len(seen)})
 
     # ------------------------------------------------ random walks on larger screens
-    n_walks = 12 if tier == "quick" else 150
+    n_walks = 40 if tier == "quick" else 300
     for wi in range(n_walks):
         ns = int(rng.integers(1, 7))
         shape = tuple(int(x) for x in rng.integers(1, 9, size=ns))
@@ -198,20 +198,33 @@ def run_shard(rec, tier, seed, shard, nshards):
         unobserved = sorted(int(p.plate_id) for p in screen.plates if not p.is_observed)
         batch = ()
         trace = []
-        for _ in range(tot + 1):
+        multi_batch = bool(rng.random() < 0.5)
+        for _ in range(2 * tot + 2):
             scores = {p: float(rng.choice([0.0, 1.0, 2.0, float("-inf"), rng.normal()])) for p in unobserved}
-            w = {"shape": list(shape), "k": k, "observed": list(observed), "batch": list(batch)}
+            w = {"shape": list(shape), "k": k, "observed": list(observed), "batch": list(batch), "history": trace[-12:]}
             try:
                 recd, sel = step(screen, policy, unobserved, batch, scores=scores)
             except Exception as e:
                 rec.violation("C16/policy/raises", "select_next_plate raised %r" % (e,), w)
                 break
-            rec.case(("walk", shape, observed, k, tuple(sorted(batch))))
+            rec.case(("walk", shape, observed, k, tuple(sorted(batch)), len(trace)))
             rec.count("walk_steps")
             if "allowed" in recd:
+                rec.check(recd["batch"] == sorted(batch) and recd["unobs"] == sorted(p for p in unobserved if p not in batch), "C16/inputs/policy-handed-wrong-sets", lambda: "policy received batch %r / unobserved %r; the batch is %r and the unobserved plates outside it are %r" % (recd["batch"], recd["unobs"], sorted(batch), sorted(p for p in unobserved if p not in batch)), w)
                 check_state(rec, k, sample_of, unobserved, batch, recd["allowed"], w)
-            if sel is None:
-                break
+            if sel is None or (multi_batch and len(batch) and len(batch) % k == 0 and rng.random() < 0.5):
+                if not multi_batch or not batch:
+                    break
+                # the batch goes to the lab: its plates are revealed IN PLACE on the same Screen object, a new batch starts
+                m = np.isin(np.asarray(screen.plate_ids), list(batch))
+                screen.set_observed(m, np.asarray(screen.observations)[m].copy())
+                unobserved = [p for p in unobserved if p not in batch]
+                trace.append("reveal-in-place:%s" % (list(batch),))
+                rec.count("batches_revealed_in_place")
+                batch = ()
+                if not unobserved:
+                    break
+                continue
             trace.append(sel)
             batch = batch + (sel,)
         if wi == 0 and shard == 0:
